@@ -24,7 +24,7 @@ def RULE(tier):
         f"or numbers skipped with set_seq_num). EXHAUSTIVELY all journals of <= {k} slots over the slot kinds x ALL "
         "(BeginSeqNo, EndSeqNo) with BeginSeqNo in [-1, L+3], EndSeqNo in {0} U [BeginSeqNo-1, L+3], issued one after the "
         "other on the same endpoint (so every request also runs after earlier overlapping and identical requests), in ACTIVE "
-        "and while the endpoint itself awaits a resend; numbering epochs (reset_seq_num() between requests, so that later requests carry lower "
+        "and while the endpoint itself awaits a resend; wall-clock steps backwards / forwards between sends and requests (OrigSendingTime must stay the original SendingTime); numbering epochs (reset_seq_num() between requests, so that later requests carry lower "
         "MsgSeqNums than earlier ones); a journal of 1300 (quick) / 5000 (thorough) slots requested as a whole, from the middle and bounded; plus Hypothesis journals up to 30 slots with requests interleaved "
         "with further sends. Chain validator written from the statement: the reply is a contiguous ascending chain covering "
         "exactly [b, t] whose links are retransmissions (original type and MsgSeqNum, PossDupFlag=Y, OrigSendingTime = "
@@ -285,6 +285,12 @@ def run_journal(acc, role, state, slots, requests, origin):
                 seen = set()
                 acc.klass("epoch-reset")
                 continue
+            if item in ("clock-back", "clock-fwd"):
+                # the wall clock is stepped (NTP correction, VM resume): later frames carry an earlier / much later SendingTime
+                lp = d.b.w.loop
+                lp.wall_offset = getattr(lp, "wall_offset", 0.0) + (-3.0 if item == "clock-back" else 3600.0)
+                acc.klass(item)
+                continue
             if isinstance(item, str):
                 err = d.add_slot(item)
                 if err:
@@ -308,6 +314,7 @@ def exhaustive(acc, role, state, nslots, part, parts):
     if part == 0:
         for slots in (["app", "app"], ["app", "hb", "appg"]):
             run_journal(acc, role, state, slots, [(1, 0), (2, 0), (1, 0), (2, 3), "reset", "app", "app", "hb", "app", (1, 0), (2, 0), (2, 3), "reset", "app", (1, 0)], "epochs")
+            run_journal(acc, role, state, slots, [(1, 0), "clock-back", (1, 0), (2, 3), "app", "clock-fwd", (1, 0), "clock-back", "app", (2, 0)], "clock-steps")
     k = 0
     for L in range(0, nslots + 1):
         for slots in itertools.product(SLOTS, repeat=L):
@@ -334,7 +341,7 @@ def bulk(acc, role, n):
 
 
 slot = st.sampled_from(SLOTS + ["app", "app", "appg"])
-item = st.one_of(st.just("reset"), st.tuples(st.integers(-1, 36), st.integers(-1, 36)), st.tuples(st.integers(1, 30), st.just(0)), st.tuples(st.integers(1, 12), st.integers(1, 12)),
+item = st.one_of(st.just("reset"), st.sampled_from(["clock-back", "clock-back", "clock-fwd"]), st.tuples(st.integers(-1, 36), st.integers(-1, 36)), st.tuples(st.integers(1, 30), st.just(0)), st.tuples(st.integers(1, 12), st.integers(1, 12)),
                  st.sampled_from(SLOTS))
 
 
